@@ -17,7 +17,7 @@ ASSUMPTIONS = sched.ASSUMPTIONS + ['initial environment: every task absent, or p
                                    '(covers lost wake-ups, join on a dead worker, workers left blocked after the master returned or raised)']
 OUTSIDE = sched.OUTSIDE
 BOUNDS = {'quick': {'tasks': 2, 'graphs': 'all 3 acyclic labelled graphs on 2 tasks + the three 2-cycles + the hard 3-cycle', 'workers': [1],
-                    'plus': '3-task hard chain and fan-in hard+soft with 1 worker; 1 task with 2 workers (more workers than tasks)', 'outcomes': KINDS,
+                    'plus': '3-task hard chain with 1 worker; 1 task with 2 workers (more workers than tasks)', 'outcomes': KINDS,
                     'pristine-queue query': '2-task graphs and 3-task graphs without soft edges',
                     'depth': 'every run, first K = 22+11N+6W steps'},
           'thorough': {'tasks': '<= 3', 'graphs': 'all 27 acyclic labelled graphs on 3 tasks (W=1), 2-task graphs W=1 (two workers: outside, queries need 30-75 min from an arbitrary initial environment), cycles',
@@ -131,7 +131,7 @@ def _job(n, hard, soft, w, tier, seed=0):
 
 
 def jobs(tier):
-    out = sched.standard_jobs(tier, _job, cyclic=True, light=('n2w2-h10-s_', 'n3w1-h10-s21'), no_w2=True)
+    out = sched.standard_jobs(tier, _job, cyclic=True, light=('n2w2-h10-s_', 'n3w1-h10-s21', 'n3w1-h20-s21'), no_w2=True)
     # more workers than tasks (idle workers must be stopped too, and must not leave sentinels behind)
     out.append((sched.cfg_name(Config(1, [], [], 2)), _job, dict(n=1, hard=[], soft=[], w=2, tier=tier)))
     return out
